@@ -674,6 +674,22 @@ impl<A: ArenaAllocator> Drop for Arena<A> {
             let value = x.payload_ptr();
             x.0.drop_in_place(value);
         });
+        #[cfg(starlark_verif)]
+        if crate::__verif::poison_enabled() {
+            // Verification hook: make use-after-free of arena memory observable.
+            unsafe {
+                for bump in [&self.drop, &self.non_drop] {
+                    for chunk in bump.iter_allocated_chunks_rev() {
+                        std::ptr::write_bytes(
+                            chunk.as_ptr() as *mut u8,
+                            crate::__verif::POISON_BYTE,
+                            chunk.len(),
+                        );
+                        crate::__verif::note_poisoned(chunk.len());
+                    }
+                }
+            }
+        }
     }
 }
 
